@@ -138,9 +138,9 @@ class State:
     def __init__(s, env, heap, pc, ret=None, defs=None):
         s.env, s.heap, s.pc, s.ret = dict(env), heap.copy(), list(pc), ret
         s.defs = list(defs or []); s.exc = None
-        s.old = None; s.loop_pre = None; s.old_env = None; s.hints = []
+        s.old = None; s.loop_pre = None; s.old_env = None; s.hints = []; s.loop_pre_env = None
     def fork(s):
-        n = State(s.env, s.heap, s.pc, s.ret, s.defs); n.old, n.loop_pre, n.old_env, n.exc = s.old, s.loop_pre, s.old_env, s.exc; n.hints = list(s.hints); return n
+        n = State(s.env, s.heap, s.pc, s.ret, s.defs); n.old, n.loop_pre, n.old_env, n.exc = s.old, s.loop_pre, s.old_env, s.exc; n.hints = list(s.hints); n.loop_pre_env = s.loop_pre_env; return n
 
 
 # ---------------------------------------------------------------- executor
@@ -216,6 +216,7 @@ class Exec:
         if sv.ty == BOOL: return sv.t
         if sv.ty == INT: return sv.t != 0
         if sv.ty == NONE: return BoolVal(False)
+        if sv.ty == STR: return s.str_len(sv.t) != 0
         if sv.ty.kind == 'list': return sv._len_gt0
         if sv.ty.kind == 'ref': return sv.t != 0
         raise Unsupported(f'truth of {sv.ty}')
@@ -406,6 +407,9 @@ class Exec:
         if isinstance(fn, ast.Name) and getattr(s, 'specmode', False):
             r = s.spec_call(st, e)
             if r is not None: return r
+        if isinstance(fn, ast.Name) and fn.id in st.env and isinstance(st.env[fn.id], SV) and st.env[fn.id].ty == IARR and len(e.args) == 1:
+            a_ = s.ev(st, e.args[0]); f_ = st.env[fn.id]
+            return SV(Select(f_.t, a_.t), getattr(f_, 'ety', None) or a_.ty)
         if isinstance(fn, ast.Name):
             n = fn.id
             if n == 'len':
@@ -415,6 +419,16 @@ class Exec:
                 raise Unsupported(f'len of {v.ty}')
             if n == 'isinstance' and isinstance(e.args[1], ast.Attribute) and 'IsT' in s.spec.ufuns:
                 v = s.ev(st, e.args[0]); return SV(s.spec.ufuns['IsT'][0](v.t), BOOL)
+            if n == 'isinstance' and isinstance(e.args[1], (ast.BinOp, ast.Tuple)):
+                v = s.ev(st, e.args[0])
+                def names(x):
+                    if isinstance(x, ast.BinOp): return names(x.left) + names(x.right)
+                    if isinstance(x, ast.Tuple): return [y for z in x.elts for y in names(z)]
+                    return [x.id if isinstance(x, ast.Name) else x.attr]
+                return SV(Or([s.isinst(v, c_) for c_ in names(e.args[1])]), BOOL)
+            if n == 'isinstance' and isinstance(e.args[1], ast.Name) and e.args[1].id in s.p.classes and s.ev(st, e.args[0]).ty.kind == 'ref' \
+                    and e.args[1].id not in (s.p.mro(s.ev(st, e.args[0]).ty.arg) if s.ev(st, e.args[0]).ty.arg in s.p.classes else []):
+                return SV(s.isinst(s.ev(st, e.args[0]), e.args[1].id), BOOL)
             if n == 'isinstance':
                 v = s.ev(st, e.args[0]); c = e.args[1].id
                 if c == 'list': return SV(BoolVal(v.ty.kind == 'list'), BOOL)
@@ -531,6 +545,10 @@ class Exec:
                 if kind is None and any(d.endswith('.setter') for d in decs): continue
                 return c, m
         return None, None
+    def isinst(s, v, cname):
+        if cname not in s.p.classes: raise Unsupported(f'isinstance against unknown class {cname}')
+        subs = [c for c in s.p.classes if cname in s.p.mro(c)]
+        return And(v.t != 0, Or([s.typ(v.t) == s.class_id(c) for c in subs]))
     def class_id(s, cls): return IntVal(sorted(s.p.classes).index(cls) + 1)
 
     # ------------------------------------------------------------ spec expressions
@@ -550,6 +568,7 @@ class Exec:
             h = st.old if n == 'old' else st.loop_pre
             st2 = st.fork(); st2.heap = h.copy()
             if n == 'old' and getattr(st, 'old_env', None): st2.env = dict(st.env, **st.old_env)
+            if n == 'pre' and getattr(st, 'loop_pre_env', None): st2.env = dict(st.env, **st.loop_pre_env)
             r = s.ev(st2, e.args[0]); return r
         if n in ('forall', 'exists'):
             lam = e.args[0]; names = [a.arg for a in lam.args.args]
@@ -618,6 +637,13 @@ class Exec:
         kind = args[0].value
         if kind == 'assert':
             g = s.spec_bool(st, args[1]); s.oblige_force(st, f'ghost-assert[{ast.unparse(args[1])[:140]}]', g); st.pc.append(g); st.hints.append(g); return
+        if kind == 'let':
+            st.env[args[1].value] = s.spec_ev(st, args[2]); return
+        if kind == 'letarr':
+            lam = args[2]; kname = lam.args.args[0].arg; kv = Int(f'{kname}!g{next(_fresh)}')
+            body = s.spec_ev(st, lam.body, {kname: SV(kv, INT)})
+            na = fresh('ghost_' + args[1].value, IA); st.defs.append(ForAll([kv], Select(na, kv) == body.t))
+            st.env[args[1].value] = SV(na, IARR); return
         if kind in ('seto', 'setinto'):
             slf = s.spec_ev(st, args[1]); args = [args[0]] + list(args[2:]); kind = 'set' if kind == 'seto' else 'setint'
         else: slf = st.env['self']
@@ -867,7 +893,15 @@ class Exec:
         yield from s.run(b, n.orelse, ctx)
     def st_AnnAssign(s, st, n, ctx):
         if n.value is None: yield st; return
-        s.assign(st, n.target, s.ev(st, n.value)); yield st
+        v = None
+        if isinstance(n.value, ast.List) and not n.value.elts:
+            lt = getattr(s.spec.contracts.get(ctx.q), 'local_types', {}) if s.spec.contracts.get(ctx.q) else {}
+            ty = lt.get(getattr(n.target, 'id', None))
+            if ty is None:
+                try: ty = parse_ann(n.annotation, s.p.tv)
+                except Exception: ty = None
+            if ty is not None and ty.kind == 'list': v = s.new_list(st, ty, IntVal(0), lambda k: IntVal(0))
+        s.assign(st, n.target, v if v is not None else s.ev(st, n.value)); yield st
     def st_Assign(s, st, n, ctx):
         lt = getattr(s.spec.contracts.get(ctx.q), 'local_types', {}) if s.spec.contracts.get(ctx.q) else {}
         if isinstance(n.value, ast.List) and not n.value.elts and isinstance(n.targets[0], ast.Name) and n.targets[0].id in lt:
@@ -1024,6 +1058,7 @@ class Exec:
                  + [a_ for k_, v_ in cq.before_call.items() if k_.split('.')[-1] in called for a_ in v_]
             for a_ in acts:
                 kind_ = a_[0].value
+                if kind_ in ('let', 'letarr'): loc.add(a_[1].value)
                 if kind_ in ('set', 'setint'): heap.add(('*.' + a_[1].value, 'self'))
                 elif kind_ in ('seto', 'setinto'): heap.add(('*.' + a_[2].value, ast.unparse(a_[1])))
         probe = st.fork()
@@ -1033,32 +1068,37 @@ class Exec:
         mods = s.expand_mods(heap, st, loc, probe)
         if getattr(s, 'debug_mods', False): print('   loop', ordinal, 'havoc:', [(p_, str(t)[:40] if t is not None else None) for p_, t in mods], 'locals', loc)
         pre = st.heap.copy()
+        pre_env = {k_: v_ for k_, v_ in st.env.items() if k_ in loc}
         def inv_at(sx, c, label):
-            sx.loop_pre = pre
+            sx.loop_pre = pre; sx.loop_pre_env = pre_env
             extra = {'K': SV(c, INT)} if c is not None else {}
             for i, e in enumerate(invs):
                 if s.proves(e): s.oblige(sx, f'loop{ordinal}-inv-{label}[{ast.unparse(e)[:140]}]@{n.lineno}', s.spec_bool(sx, e, extra), 'invariant')
         # entry
         st0 = st.fork(); 
         if N is not None: bind(st0, IntVal(0), entry=True)
-        inv_at(st0, IntVal(0) if N is not None else None, 'entry')
+        inv_at(st0, IntVal(0), 'entry')
         # arbitrary iteration
         h = st.fork(); s.havoc(h, mods, f'L{ordinal}')
         for v in loc:
             if v in h.env and not isinstance(h.env[v].t, tuple):
                 nv = SV(fresh(v, h.env[v].t.sort()), h.env[v].ty)
+                if hasattr(h.env[v], 'ety'): nv.ety = h.env[v].ety
                 if h.env[v].ty.kind == 'ref': h.defs.append(And(nv.t >= 0, nv.t < h.heap.alloc))
                 h.env[v] = nv if nv.ty.kind != 'list' else s.list_sv(h, nv.t, nv.ty)
-        c = fresh('K', I) if N is not None else None
-        h.loop_pre = pre
+        c = fresh('K', I)
+        h.loop_pre = pre; h.loop_pre_env = pre_env
         if N is not None: h.pc.append(And(0 <= c, c <= N))
-        extra = {'K': SV(c, INT)} if c is not None else {}
+        else: h.pc.append(0 <= c)
+        extra = {'K': SV(c, INT)}
         for e in invs:
             if s.uses(e): h.pc.append(s.spec_bool(h, e, extra))
         # body branch
         b = h.fork()
         if N is not None: b.pc.append(c < N); bind(b, c)
-        else: b.pc.append(s.truth(s.ev(b, cond)))
+        else:
+            cv_ = s.truth(s.ev(b, cond)); b.pc.append(cv_)
+        b.env = dict(b.env); b.env['K'] = SV(c, INT)
         if N is not None:
             cov = b.fork(); cov.pc.append(c >= 1); s.oblige(cov, f'SMOKE-loop{ordinal}-second-iteration@{n.lineno}', BoolVal(False), 'smoke')
         lctx = Ctx(ctx.q); lctx.loops = ctx.loops; lctx.returns, lctx.raises = ctx.returns, ctx.raises
@@ -1067,11 +1107,13 @@ class Exec:
         ctx.loops = lctx.loops
         for e_ in ends:
             if N is not None: bind(e_, c + 1, entry=True)
-            inv_at(e_, c + 1 if N is not None else None, 'preserved')
+            inv_at(e_, c + 1, 'preserved')
         # exit branch
         x = h.fork()
         if N is not None: x.pc.append(c == N); bind(x, c, entry=True)
-        else: x.pc.append(Not(s.truth(s.ev(x, cond))))
+        else:
+            cv_ = s.truth(s.ev(x, cond)); x.pc.append(Not(cv_))
+        x.env = dict(x.env); x.env['K_loop%d' % ordinal] = SV(c, INT)
         yield from s.run(x, n.orelse, ctx)
         for bst in lctx.breaks: yield bst
     def loop_ordinal(s, q, node):
@@ -1181,6 +1223,9 @@ def generate(ex, owner, name, kind=None):
         if a.arg in getattr(c, 'local_types', {}): ty = c.local_types[a.arg]
         if ty is None: raise Unsupported(f'parameter {a.arg} of {q} has no type')
         v = Int('v_' + a.arg)
+        if ty == IARR:
+            sv = SV(Const('v_' + a.arg, IA), IARR); sv.ety = c.local_types.get(a.arg + '__ret') if hasattr(c, 'local_types') else None
+            st.env[a.arg] = sv; continue
         if ty.kind == 'tuple':
             sv = SV(tuple(SV(Int(f'v_{a.arg}_{j}'), t) for j, t in enumerate(ty.arg)), ty)
         else:
